@@ -945,6 +945,14 @@ class Interp:
             self.frame_write(obj, name)
             obj.attrs[name] = value
             return
+        if callable(obj) and not isinstance(obj, (type, Obj)) and name.startswith("__") and name.endswith("__") \
+                and not isinstance(obj, Closure):
+            return        # metadata of a plain callable
+        if isinstance(obj, Closure) and name.startswith("__") and name.endswith("__"):
+            # function metadata (__name__, __doc__, ...) has no semantic effect
+            if name == "__name__":
+                obj.name = value if isinstance(value, str) else obj.name
+            return
         h = self.stubs.get("__setattr__")
         if h is not None and h(self, obj, name, value) is not NotImplemented:
             return
